@@ -35,6 +35,11 @@ type knobs struct {
 	pCloseRace  float64
 	pDyn        float64 // in-process: a side uses dynamic messages
 	pMismatch   float64 // single-response calls: the caller receives into another message type
+	pStub       float64 // server-stream calls made the way generated stubs make them
+	pReject     float64 // server-stream calls turned down before the request is read
+	pPingPong   float64 // in-process bidi calls in lockstep
+	pCause      float64 // caller contexts that end with a cause
+	pOuterBlank float64 // metadata values with blanks at their ends
 	maxMsgs     int
 	cloners     []int
 	allMsgKinds bool
@@ -47,6 +52,7 @@ func defaultKnobs() knobs {
 		maxRPC:     3, pErr: 0.3, pPlainErr: 0.15, pDeviate: 0.2, pCancel: 0.2, pDeadline: 0.1, pCut: 0, pAdvance: 0.05,
 		pMutate: 0.1, pMD: 0.4, pSplit: 0.15, pBig: 0.03, pSleep: 0.1, pWaitCtx: 0.05, pHdrCalls: 0.3, pExtraResp: 0.05, pUnenc: 0.0,
 		pJunkDst: 0.2, pDyn: 0.05, pClosure: 0.3, pStopOnErr: 0.5, pCtxVals: 0.2, pCreds: 0.1, pTInt: 0.2, maxMsgs: 4, cloners: []int{0, 0, 1, 2, 3, 4},
+		pStub: 0.5, pCause: 0.3, pOuterBlank: 0, pReject: 0.08, pPingPong: 0.15,
 	}
 }
 
@@ -55,6 +61,7 @@ type gen struct {
 	k   knobs
 	tag uint32
 	ns  int64
+	bigPending bool // some call has a peer that answers or leaves while a large request is still being sent
 }
 
 func newRand(seed int64) *rand.Rand { return rand.New(rand.NewSource(seed)) }
@@ -137,6 +144,18 @@ func (g *gen) md(max int) []KV {
 					c = 'x'
 				}
 				v = append(v, c)
+			}
+			if g.p(g.k.pOuterBlank) {
+				// blanks at the ends of a value: legal in gRPC metadata, trimmed by
+				// HTTP header rules (a known limit of the HTTP wire format)
+				switch g.pick(3) {
+				case 0:
+					v = append([]byte(" "), v...)
+				case 1:
+					v = append(v, ' ')
+				default:
+					v = append(append([]byte("  "), v...), ' ')
+				}
 			}
 		}
 		out = append(out, KV{K: k, V: RawStr(v)})
@@ -270,6 +289,7 @@ func (g *gen) rpc(id int) *RPC {
 		h = append(h, ret)
 	case KServerStream:
 		c = append(c, Op{K: "send", Msg: g.msg()}, Op{K: "closesend"})
+		r.Stub = g.p(k.pStub)
 		h = append(h, Op{K: "recv"})
 		hdrs()
 		for i := 0; i < nResp; i++ {
@@ -284,6 +304,17 @@ func (g *gen) rpc(id int) *RPC {
 			h = append(h, Op{K: "waitctx"})
 		}
 		h = append(h, Op{K: "return", St: g.maybeStatus()})
+		if g.p(k.pReject) {
+			// the call is turned down before the request is read (what an
+			// authorising interceptor does); over HTTP a large request is then
+			// still on its way when the reply is complete
+			h = []Op{{K: "return", St: g.status()}}
+			if http && g.p(0.6) {
+				c[0].Msg.Kind = 0
+				c[0].Msg.Size = 280000 + g.pick(900000)
+				g.bigPending = true
+			}
+		}
 		if g.p(0.7) {
 			c = append(c, Op{K: "recvall"})
 		} else {
@@ -329,6 +360,22 @@ func (g *gen) rpc(id int) *RPC {
 				h = append(h, Op{K: "send", Msg: g.msg()})
 			}
 			hdrs()
+			h = append(h, Op{K: "return", St: g.maybeStatus()})
+		} else if g.p(k.pPingPong) {
+			// request/response in lockstep: each side waits for the other
+			if g.p(0.3) {
+				hdrs()
+			}
+			n := 1 + g.pick(k.maxMsgs)
+			for i := 0; i < n; i++ {
+				c = append(c, Op{K: "send", Msg: g.msg()}, recvOp())
+				h = append(h, Op{K: "recv"}, Op{K: "send", Msg: g.msg()})
+			}
+			c = append(c, Op{K: "closesend"}, recvOp())
+			h = append(h, Op{K: "recv"})
+			if g.p(0.3) {
+				hdrs()
+			}
 			h = append(h, Op{K: "return", St: g.maybeStatus()})
 		} else {
 			// full duplex: the two directions are independent
@@ -403,6 +450,16 @@ func (g *gen) rpc(id int) *RPC {
 				for i := 0; i < nr; i++ {
 					h = append(h, Op{K: "recv"})
 				}
+				if g.p(0.5) {
+					// ... after answering: it never reads again once it has written
+					ns := 1
+					if r.Kind == KBidi {
+						ns = 1 + g.pick(2)
+					}
+					for i := 0; i < ns; i++ {
+						h = append(h, Op{K: "send", Msg: g.msg()})
+					}
+				}
 				h = append(h, Op{K: "return", St: g.maybeStatus()})
 				if http && g.p(0.5) {
 					// ... with more outstanding than a server reads on its own
@@ -413,6 +470,11 @@ func (g *gen) rpc(id int) *RPC {
 							c[i].Msg.Size = 90000 + g.pick(250000)
 						}
 					}
+					g.bigPending = true
+					if g.p(0.4) && len(h) > 1 {
+						// ... and takes its time before it returns
+						h = append(h[:len(h)-1], Op{K: "sleep", D: g.dur()}, h[len(h)-1])
+					}
 				}
 			}
 		case 0: // operations after completion
@@ -420,6 +482,9 @@ func (g *gen) rpc(id int) *RPC {
 		case 1: // handler returns early
 			if len(h) > 2 {
 				cut := 1 + g.pick(len(h)-1)
+				if g.p(0.3) {
+					cut = 0 // before it has read anything (an interceptor turning the call down)
+				}
 				h = append(append([]Op{}, h[:cut]...), Op{K: "return", St: g.maybeStatus()})
 			}
 
@@ -550,6 +615,7 @@ func (g *gen) rpc(id int) *RPC {
 	if g.p(k.pDeadline) {
 		r.DeadlineN = g.dur()
 	}
+	r.Cause = g.p(k.pCause)
 	if http && (r.Kind == KClientStream || r.Kind == KBidi) && len(r.Client2) == 0 && g.p(k.pWaitCtx*0.6) {
 		// a handler that does not read its requests but waits for its context:
 		// over HTTP only the propagated deadline can end it
@@ -582,6 +648,13 @@ func (g *gen) estLen(r *RPC) int {
 	}
 	if r.Transport == THTTP {
 		n = n * 3 / 2
+		// a large message crosses the simulated network in many deliveries:
+		// faults are to land inside such transfers as well
+		for _, o := range append(append([]Op{}, r.Client...), r.Handler...) {
+			if o.Msg != nil && o.Msg.Size > 8000 {
+				n += o.Msg.Size / 3000
+			}
+		}
 	}
 	return n
 }
@@ -593,7 +666,7 @@ func (g *gen) program(profile string, seed int64) *Program {
 	p.Cfg.Frag = []int{0, 0, 1, 2, 3}[g.pick(5)]
 	p.Cfg.NetEager = g.p(0.3)
 	if g.p(0.15) {
-		p.Cfg.SendBuf = []int{1, 7, 64, 4096}[g.pick(4)]
+		p.Cfg.SendBuf = []int{1, 7, 64, 4096, 4096, 32768}[g.pick(6)]
 	}
 	p.Cfg.Cloner = k.cloners[g.pick(len(k.cloners))]
 	// HTTP server flavour: Server type or HandleServices on a mux, base path,
@@ -622,6 +695,11 @@ func (g *gen) program(profile string, seed int64) *Program {
 			r.After = 1 + g.pick(i)
 		}
 		p.RPCs = append(p.RPCs, r)
+	}
+	if g.bigPending && g.p(0.6) {
+		// a peer that answers while much of the request is still to come only
+		// matters when the sender cannot hand everything to the network at once
+		p.Cfg.SendBuf = []int{4096, 32768}[g.pick(2)]
 	}
 	if p.Cfg.Cloner >= 2 {
 		// the codec / clone-func / copy-func adapters create destinations by
